@@ -33,6 +33,9 @@ struct Run {
     /// drained part only: the closing side is drained early by its peer's stateless reset (arriving
     /// this many microseconds after the close) instead of by its close timer
     reset_after_us: Option<u64>,
+    /// the timeout handler is called this many times at every timer firing before transmits are
+    /// polled (1: the reference driver)
+    timeout_calls: u32,
 }
 
 fn cfg_of(name: &str) -> crate::sim::PairCfg {
@@ -154,6 +157,7 @@ fn run(process_base: Instant, hs: &[Hist], r: &Run) -> Out {
         let mut p = std_pair_pre(base, &cfg, h.wl, ReadMode::default(), |w| {
             w.fates = fates_of(&h.devs, &FATE_ALTS);
             w.hold_drained = r.drained_part;
+            w.timeout_calls = r.timeout_calls;
         });
         let mut reset_sent = false;
         let mut script = h.script.clone();
@@ -367,18 +371,18 @@ pub fn main(args: &Args) -> ! {
     let thorough = args.tier == Tier::Thorough;
     let dl = deadline(if thorough { 1200 } else { 45 });
     let hs = histories(thorough);
-    rep.rule = "Differential runs over a list of input histories H (fault-free baselines of several configurations/workloads incl. Retry, CID rotation, key update, NAT rebinding, migration and unroutable datagrams that draw stateless resets, plus every single-deviation history over the fate alphabet in the first datagrams): (1) H twice -> identical full trace (instant, destination, bytes of every datagram; every event; every timer firing); (2) H with every supplied Instant shifted by 1 s / 1 day / 10 years -> identical trace relative to the base; (3) for EVERY step index j of H a spurious handle_timeout(now) or an extra poll round is inserted -> identical trace; (3c) every NEW_TOKEN token the server emits decodes (server's own key) to an issue time equal to the supplied clock's reading at emission; (4) a timer never fires more than 16 consecutive times at one instant; (3b) script-free histories driven by a busy-polling loop (extra transmit polls every 20/50/100/1000 us of virtual time, incl. rate-limited senders) -> same events and loss counters as the event-driven run; (5) after both sides are drained (by the close timer, or early by the peer's stateless reset arriving 1 / 40 ms after the close) every datagram of the run is fed again and ten timeouts are delivered -> no transmit, no event, no endpoint event. Non-trivial = a run with a shift or an inserted call; distinct = distinct (history, variant) pairs.".into();
+    rep.rule = "Differential runs over a list of input histories H (fault-free baselines of several configurations/workloads incl. Retry, CID rotation, key update, NAT rebinding, migration and unroutable datagrams that draw stateless resets, plus every single-deviation history over the fate alphabet in the first datagrams): (1) H twice -> identical full trace (instant, destination, bytes of every datagram; every event; every timer firing); (2) H with every supplied Instant shifted by 1 s / 1 day / 10 years -> identical trace relative to the base; (3) for EVERY step index j of H a spurious handle_timeout(now) or an extra poll round is inserted -> identical trace; (3a) H with the timeout handler called twice / three times at EVERY timer firing before transmits are polled -> identical full trace; (3c) every NEW_TOKEN token the server emits decodes (server's own key) to an issue time equal to the supplied clock's reading at emission; (4) a timer never fires more than 16 consecutive times at one instant; (3b) script-free histories driven by a busy-polling loop (extra transmit polls every 20/50/100/1000 us of virtual time, incl. rate-limited senders) -> same events and loss counters as the event-driven run; (5) after both sides are drained (by the close timer, or early by the peer's stateless reset arriving 1 / 40 ms after the close) every datagram of the run is fed again and ten timeouts are delivered -> no transmit, no event, no endpoint event. Non-trivial = a run with a shift or an inserted call; distinct = distinct (history, variant) pairs.".into();
     // baselines
-    let (bres, _) = e3((0..hs.len()).collect::<Vec<_>>(), dl, |&i| run(pbase, &hs, &Run { h: i, shift: Duration::ZERO, extra: None, drained_part: false, busy_us: None, reset_after_us: None }));
+    let (bres, _) = e3((0..hs.len()).collect::<Vec<_>>(), dl, |&i| run(pbase, &hs, &Run { h: i, shift: Duration::ZERO, extra: None, drained_part: false, busy_us: None, reset_after_us: None, timeout_calls: 1 }));
     let base: Vec<(u64, u64)> = bres.iter().map(|(_, o)| (o.trace, o.steps)).collect();
     let base_abs: Vec<u64> = bres.iter().map(|(_, o)| o.abs).collect();
     let base_sem: Vec<u64> = bres.iter().map(|(_, o)| o.sem).collect();
     let base_once: Vec<u64> = bres.iter().map(|(_, o)| o.sem_once).collect();
     let mut runs = vec![];
     for (i, _) in hs.iter().enumerate() {
-        runs.push(Run { h: i, shift: Duration::ZERO, extra: None, drained_part: false, busy_us: None, reset_after_us: None });
+        runs.push(Run { h: i, shift: Duration::ZERO, extra: None, drained_part: false, busy_us: None, reset_after_us: None, timeout_calls: 1 });
         for sh in [1u64, 86_400, 315_360_000] {
-            runs.push(Run { h: i, shift: Duration::from_secs(sh), extra: None, drained_part: false, busy_us: None, reset_after_us: None });
+            runs.push(Run { h: i, shift: Duration::from_secs(sh), extra: None, drained_part: false, busy_us: None, reset_after_us: None, timeout_calls: 1 });
         }
         // insertion points only for the first histories in quick (they dominate the cost)
         let ins = thorough || i < 34;
@@ -386,16 +390,20 @@ pub fn main(args: &Args) -> ! {
             let steps = base[i].1.min(if thorough { 400 } else { 120 });
             for j in 0..steps {
                 for n in [CLIENT, SERVER] {
-                    runs.push(Run { h: i, shift: Duration::ZERO, extra: Some((j, Op::SpuriousTimeout(n))), drained_part: false, busy_us: None, reset_after_us: None });
-                    runs.push(Run { h: i, shift: Duration::ZERO, extra: Some((j, Op::SpuriousSettle(n))), drained_part: false, busy_us: None, reset_after_us: None });
+                    runs.push(Run { h: i, shift: Duration::ZERO, extra: Some((j, Op::SpuriousTimeout(n))), drained_part: false, busy_us: None, reset_after_us: None, timeout_calls: 1 });
+                    runs.push(Run { h: i, shift: Duration::ZERO, extra: Some((j, Op::SpuriousSettle(n))), drained_part: false, busy_us: None, reset_after_us: None, timeout_calls: 1 });
                 }
             }
         }
+        // every timer firing of the history calls the timeout handler twice / three times
+        for k in [2u32, 3] {
+            runs.push(Run { h: i, shift: Duration::ZERO, extra: None, drained_part: false, busy_us: None, reset_after_us: None, timeout_calls: k });
+        }
         if i < 34 || thorough {
-            runs.push(Run { h: i, shift: Duration::ZERO, extra: None, drained_part: true, busy_us: None, reset_after_us: None });
+            runs.push(Run { h: i, shift: Duration::ZERO, extra: None, drained_part: true, busy_us: None, reset_after_us: None, timeout_calls: 1 });
             // ... and drained early by the peer's stateless reset while the close timer is running
             for us in [1_000u64, 40_000] {
-                runs.push(Run { h: i, shift: Duration::ZERO, extra: None, drained_part: true, busy_us: None, reset_after_us: Some(us) });
+                runs.push(Run { h: i, shift: Duration::ZERO, extra: None, drained_part: true, busy_us: None, reset_after_us: Some(us), timeout_calls: 1 });
             }
         }
         // a busy-polling driver: extra transmit polls at a fixed cadence between the events
@@ -406,7 +414,7 @@ pub fn main(args: &Args) -> ! {
                 if !thorough && !paced && us != 100 {
                     continue;
                 }
-                runs.push(Run { h: i, shift: Duration::ZERO, extra: None, drained_part: false, busy_us: Some(us), reset_after_us: None });
+                runs.push(Run { h: i, shift: Duration::ZERO, extra: None, drained_part: false, busy_us: Some(us), reset_after_us: None, timeout_calls: 1 });
             }
         }
     }
@@ -415,6 +423,7 @@ pub fn main(args: &Args) -> ! {
     rep.exhaustive = !capped;
     let mut n_shift = 0u64;
     let mut n_ins = 0u64;
+    let mut n_multi = 0u64;
     let mut n_drain = 0u64;
     let mut n_busy = 0u64;
     let mut n_tokens = 0u64;
@@ -422,8 +431,8 @@ pub fn main(args: &Args) -> ! {
     for (r, o) in &res {
         rep.evaluations += 1;
         let h = &hs[r.h];
-        let rj = json!({"check":"c20","cfg":h.cfg,"wl":format!("{:?}",h.wl),"devs":h.devs,"script":h.sname,"shift_s":r.shift.as_secs(),"extra":format!("{:?}",r.extra),"drained":r.drained_part,"busy_us":r.busy_us,"reset_after_us":r.reset_after_us});
-        let desc = format!("history cfg={} wl={:?} devs={:?} script={} shift={:?} inserted={:?} busy-polling={:?} reset-after-close={:?}us", h.cfg, h.wl, h.devs, h.sname, r.shift, r.extra, r.busy_us, r.reset_after_us);
+        let rj = json!({"check":"c20","cfg":h.cfg,"wl":format!("{:?}",h.wl),"devs":h.devs,"script":h.sname,"shift_s":r.shift.as_secs(),"extra":format!("{:?}",r.extra),"drained":r.drained_part,"busy_us":r.busy_us,"reset_after_us":r.reset_after_us,"timeout_calls":r.timeout_calls});
+        let desc = format!("history cfg={} wl={:?} devs={:?} script={} shift={:?} inserted={:?} busy-polling={:?} reset-after-close={:?}us timeout-handler-calls-per-firing={}", h.cfg, h.wl, h.devs, h.sname, r.shift, r.extra, r.busy_us, r.reset_after_us, r.timeout_calls);
         if let Some(p) = &o.panic {
             rep.violation(Violation { signature: "panic".into(), what: format!("{desc}: panic {p}"), replay: rj.clone() });
             continue;
@@ -434,7 +443,7 @@ pub fn main(args: &Args) -> ! {
         }
         let mut hh = std::collections::hash_map::DefaultHasher::new();
         use std::hash::{Hash, Hasher};
-        (r.h, r.shift, format!("{:?}", r.extra), r.drained_part, r.reset_after_us, r.busy_us).hash(&mut hh);
+        (r.h, r.shift, format!("{:?}", r.extra), r.drained_part, r.reset_after_us, r.busy_us, r.timeout_calls).hash(&mut hh);
         if r.drained_part {
             n_drain += 1;
             n_reset += o.reset_sent as u64;
@@ -444,7 +453,7 @@ pub fn main(args: &Args) -> ! {
             }
             continue;
         }
-        if r.shift != Duration::ZERO || r.extra.is_some() || r.busy_us.is_some() {
+        if r.shift != Duration::ZERO || r.extra.is_some() || r.busy_us.is_some() || r.timeout_calls > 1 {
             rep.distinct.insert(hh.finish());
         }
         if r.busy_us.is_some() {
@@ -467,7 +476,9 @@ pub fn main(args: &Args) -> ! {
             o.trace != base[r.h].0
         };
         if differs {
-            let sig = if r.shift != Duration::ZERO {
+            let sig = if r.timeout_calls > 1 {
+                "repeated-timeout-call-changes-trace"
+            } else if r.shift != Duration::ZERO {
                 n_shift += 1;
                 "time-translation-changes-trace"
             } else if let Some((_, op)) = &r.extra {
@@ -480,6 +491,8 @@ pub fn main(args: &Args) -> ! {
                 "replay-differs"
             };
             rep.violation(Violation { signature: sig.into(), what: format!("{desc}: output trace differs from the reference run of the same history"), replay: rj });
+        } else if r.timeout_calls > 1 {
+            n_multi += 1;
         } else if r.shift != Duration::ZERO {
             n_shift += 1;
         } else if r.extra.is_some() {
@@ -489,7 +502,7 @@ pub fn main(args: &Args) -> ! {
     if n_tokens == 0 {
         machinery("vacuity guard: no NEW_TOKEN token was ever emitted");
     }
-    rep.part("differential", json!({"histories": hs.len(), "runs": total, "executed": res.len(), "time_shift_runs": n_shift, "insertion_runs": n_ins, "drained_runs": n_drain, "busy_polling_runs": n_busy, "new_token_issue_times_checked": n_tokens, "drained_early_by_stateless_reset_runs": n_reset, "capped": capped}));
+    rep.part("differential", json!({"histories": hs.len(), "runs": total, "executed": res.len(), "time_shift_runs": n_shift, "insertion_runs": n_ins, "repeated_timeout_call_runs": n_multi, "drained_runs": n_drain, "busy_polling_runs": n_busy, "new_token_issue_times_checked": n_tokens, "drained_early_by_stateless_reset_runs": n_reset, "capped": capped}));
     rep.sample(json!({"history":{"cfg":"default","wl":"W2","devs":[[7,0]]},"variant":{"inserted":"SpuriousTimeout(client) at step 31"},"meaning":"the run with datagram #7 dropped is repeated with one extra handle_timeout(now)+poll round on the client after step 31; every later datagram, event and timer must be identical"}));
     rep.assumptions = vec![
         "entropy: EndpointConfig::rng_seed fixed, counter-based ConnectionIdGenerator and initial_dst_cid_provider supplied by the harness (the built-in generators draw from the OS RNG by design)".into(),
@@ -520,8 +533,8 @@ fn replay(args: &Args) -> ! {
     let pbase = Instant::now();
     DUMP.store(true, std::sync::atomic::Ordering::Relaxed);
     let hs = vec![h];
-    let a = run(pbase, &hs, &Run { h: 0, shift: Duration::ZERO, extra: None, drained_part: false, busy_us: None, reset_after_us: None });
-    let b = run(pbase, &hs, &Run { h: 0, shift: Duration::from_secs(r["shift_s"].as_u64().unwrap_or(0)), extra, drained_part: r["drained"].as_bool().unwrap_or(false), busy_us: r["busy_us"].as_u64(), reset_after_us: r["reset_after_us"].as_u64() });
+    let a = run(pbase, &hs, &Run { h: 0, shift: Duration::ZERO, extra: None, drained_part: false, busy_us: None, reset_after_us: None, timeout_calls: 1 });
+    let b = run(pbase, &hs, &Run { h: 0, shift: Duration::from_secs(r["shift_s"].as_u64().unwrap_or(0)), extra, drained_part: r["drained"].as_bool().unwrap_or(false), busy_us: r["busy_us"].as_u64(), reset_after_us: r["reset_after_us"].as_u64(), timeout_calls: r["timeout_calls"].as_u64().unwrap_or(1) as u32 });
     let (la, lb): (Vec<&str>, Vec<&str>) = if r["extra"].as_str().unwrap_or("None") != "None" {
         (a.abs_lines.iter().map(|s| s.as_str()).collect(), b.abs_lines.iter().map(|s| s.as_str()).collect())
     } else {
